@@ -88,9 +88,9 @@ Qed.
 Lemma after_batch_text : forall dn, f_text (after_batch dn) = [].
 Proof. intros []; reflexivity. Qed.
 
-Lemma ptext_step : forall s l, ptext (px (step s l)) = ptext (px s) ++ wdata l.
+Lemma ptext_step : forall s l, raw_label l = true -> ptext (px (step s l)) = ptext (px s) ++ wdata l.
 Proof.
-  intros s l. destruct l; cbn [step wdata px]; rewrite ?app_nil_r;
+  intros s l R. destruct l; try discriminate R; cbn [step wdata px]; rewrite ?app_nil_r;
     try (solve [repeat (match goal with
     | |- context [if ?b then _ else _] => destruct b
     | |- context [match ?x with _ => _ end] => destruct x
@@ -110,19 +110,63 @@ Qed.
 Lemma stream_cons : forall l ls, stream (l :: ls) = wdata l ++ stream ls.
 Proof. reflexivity. Qed.
 
-Lemma ptext_run : forall ls s, ptext (px (run s ls)) = ptext (px s) ++ stream ls.
+Lemma ptext_run : forall ls s, forallb raw_label ls = true ->
+  ptext (px (run s ls)) = ptext (px s) ++ stream ls.
 Proof.
-  induction ls as [|l ls IH]; intros s.
+  induction ls as [|l ls IH]; intros s R.
   - cbn. now rewrite app_nil_r.
-  - change (run s (l :: ls)) with (run (step s l) ls). rewrite IH, ptext_step, stream_cons.
+  - cbn [forallb] in R. apply andb_true_iff in R. destruct R as [R1 R2].
+    change (run s (l :: ls)) with (run (step s l) ls). rewrite (IH _ R2), (ptext_step _ _ R1), stream_cons.
     now rewrite app_assoc.
 Qed.
 
+(* print()/flush() through the patched stream are proxy.write()/flush() while
+   sys.stdout is the proxy and nothing afterwards *)
+Lemma patched_step : forall s l, l <> LRestore -> patched (en (step s l)) = patched (en s).
+Proof.
+  intros s l N. destruct l; try congruence; cbn [step];
+    repeat (match goal with
+      | |- context [if ?b then _ else _] => destruct b eqn:?
+      | |- context [match ?x with _ => _ end] => destruct x eqn:?
+      end); cbn [en patched set_loopq]; congruence.
+Qed.
+
+Lemma desugar_run : forall ls s, run s ls = run s (desugar (patched (en s)) ls).
+Proof.
+  induction ls as [|l ls IH]; intros s; [reflexivity|].
+  assert (G : forall l', l' <> LRestore -> run s (l' :: ls) = run s (l' :: desugar (patched (en s)) ls)).
+  { intros l' N. change (run (step s l') ls = run (step s l') (desugar (patched (en s)) ls)).
+    rewrite IH, (patched_step s l' N). reflexivity. }
+  destruct l; cbn [desugar]; try (apply G; discriminate).
+  - (* LPW *)
+    change (run s (LPW t d :: ls)) with (run (step s (LPW t d)) ls). cbn [step].
+    destruct (patched (en s)) eqn:P.
+    + change (run s (LW t d :: desugar true ls)) with (run (step s (LW t d)) (desugar true ls)).
+      rewrite IH. cbn [step en]. rewrite P. reflexivity.
+    + rewrite IH, P. reflexivity.
+  - (* LPFlush *)
+    change (run s (LPFlush t :: ls)) with (run (step s (LPFlush t)) ls). cbn [step].
+    destruct (patched (en s)) eqn:P.
+    + change (run s (LFlush t :: desugar true ls)) with (run (step s (LFlush t)) (desugar true ls)).
+      rewrite IH. cbn [step en]. rewrite P. reflexivity.
+    + rewrite IH, P. reflexivity.
+  - (* LRestore *)
+    change (run s (LRestore :: ls)) with (run (step s LRestore) ls).
+    change (run s (LRestore :: desugar false ls)) with (run (step s LRestore) (desugar false ls)).
+    rewrite IH. reflexivity.
+Qed.
+
+Lemma desugar_raw : forall ls p, forallb raw_label (desugar p ls) = true.
+Proof.
+  induction ls as [|l ls IH]; intros p; [reflexivity|].
+  destruct l; cbn [desugar forallb raw_label andb]; try apply IH; destruct p; cbn [forallb raw_label andb]; apply IH.
+Qed.
+
 (* queue order = lock order; the single consumer hands on in queue order *)
-Lemma queue_order : forall c ls,
+Lemma queue_order : forall c ls, forallb raw_label ls = true ->
   let s := run (init c) ls in
   concat (handed (px s)) ++ f_text (fth (px s)) ++ queue_text (px s) ++ buf (px s) = stream ls.
-Proof. intros c ls. cbn zeta. pose proof (ptext_run ls (init c)) as H. exact H. Qed.
+Proof. intros c ls R. cbn zeta. pose proof (ptext_run ls (init c) R) as H. exact H. Qed.
 
 (* the stream is the concatenation of the write calls' texts, each one whole,
    in lock order; a thread's calls appear in that thread's program order *)
@@ -141,4 +185,14 @@ Proof.
   intros t. induction ls as [|l ls IH]; [reflexivity|].
   destruct l; cbn [writes filter of_thread fst]; try exact IH.
   destruct (Z.eqb t0 t); cbn [writes]; now rewrite IH.
+Qed.
+
+(* for EVERY label list, prints through the patched stream included *)
+Lemma queue_order_all : forall c r ls,
+  let s := run (init2 c r) ls in
+  concat (handed (px s)) ++ f_text (fth (px s)) ++ queue_text (px s) ++ buf (px s) = stream (desugar true ls).
+Proof.
+  intros c r ls. cbn zeta. rewrite (desugar_run ls (init2 c r)).
+  change (patched (en (init2 c r))) with true.
+  exact (ptext_run (desugar true ls) (init2 c r) (desugar_raw ls true)).
 Qed.
